@@ -25,13 +25,18 @@ Cfgs == { [pair |-> p, src |-> s, method |-> m] : p \in Pairs, s \in Sources, m 
 \* (the external signer wins over the private-key field), with the configured method (default: rsa-sha1)
 Required(c) == [by |-> c.pair, method |-> IF c.method = "unset" THEN "sha1" ELSE c.method]
 
+\* ab: before this step's request another user's response was cut off in mid-write (the client went away after part of
+\* the form).  What one request leaves behind - in the IdentityProvider value or anywhere in the process - is no part of
+\* the next response: it is ONE form, with the data of its own session only
 VARIABLES hist
 Init == hist = <<>>
-Step(c) == Len(hist) < MaxLen /\ hist' = Append(hist, [cfg |-> c, req |-> Required(c)])
-Next == \E c \in Cfgs : Step(c)
+Step(c, ab) == Len(hist) < MaxLen /\ hist' = Append(hist, [cfg |-> c, req |-> Required(c), ab |-> ab])
+Next == \E c \in Cfgs, ab \in BOOLEAN : Step(c, ab)
 
 HistoryFree == \A i \in DOMAIN hist : hist[i].req = Required(hist[i].cfg)
 \* every two consecutive configurations differ (a history without change exercises nothing new)
 Interesting == Len(hist) >= 2 /\ \A i \in 1..(Len(hist) - 1) : hist[i].cfg # hist[i + 1].cfg
-Emit == (Len(hist) = MaxLen /\ Interesting) => PrintT(<<"CHIST", ToJson([steps |-> hist])>>)
+\* (the cut-off response is tried in front of the first and of the last step only)
+AbortsAtEnds == \A i \in DOMAIN hist : hist[i].ab => i \in {1, MaxLen}
+Emit == (Len(hist) = MaxLen /\ Interesting /\ AbortsAtEnds) => PrintT(<<"CHIST", ToJson([steps |-> hist])>>)
 =============================================================================
